@@ -433,6 +433,12 @@ impl SATSolver {
         }
     }
 
+    /// Verification hook: the current partial model (read-only)
+    #[cfg(rsdd_verif)]
+    pub fn verif_model(&self) -> &PartialModel {
+        &self.top_state().model
+    }
+
     /// Pops the SAT state
     ///
     /// Restores the set of clause and decisions to the point at which it was previously pushed
